@@ -616,6 +616,9 @@ func faultsRun(args []string) int {
 			dist["fault_hit"][k] += v
 			distinct[p.Kind+":"+k] = true
 		}
+		if len(rep.Hit) == 0 {
+			dist["plan"][p.Kind+"/"+p.Mode+" (no call was hit)"]++
+		}
 		evals += rep.Calls
 		apiCalls += rep.APICalls
 		apiFaulted += rep.APIFaulted
